@@ -208,6 +208,8 @@ def _impairment_profiles(draw, band):
         {'roadm-path-impairments-id': 1, 'roadm-add-path': prof('add')},
         {'roadm-path-impairments-id': 2, 'roadm-drop-path': prof('drop')},
         {'roadm-path-impairments-id': 3, 'roadm-express-path': prof('express')},
+        {'roadm-path-impairments-id': 4, 'roadm-add-path': prof('add')},
+        {'roadm-path-impairments-id': 5, 'roadm-drop-path': prof('drop')},
     ]
 
 
@@ -485,7 +487,7 @@ def roadm_element(draw, i, eq_json, own_policy=True):
 
 @st.composite
 def topology(draw, eq_json, n=(2, 5), extra_max=3, parallel=False, chain_kw=None, own_policy=True,
-             per_degree=True, symmetric=None):
+             per_degree=True, symmetric=None, per_degree_impairments=False):
     """Generated mesh. Returns {'elements','connections'} and truth {'n','links':[(a,b)]}."""
     k, links = draw(graph(n, extra_max, parallel))
     elements, connections = [], []
@@ -528,6 +530,26 @@ def topology(draw, eq_json, n=(2, 5), extra_max=3, parallel=False, chain_kw=None
                     key = {'target_pch_out_db': 'per_degree_pch_out_db', 'target_psd_out_mWperGHz': 'per_degree_psd_out_mWperGHz',
                            'target_out_mWperSlotWidth': 'per_degree_psd_out_mWperSlotWidth'}[kkey]
                     r['params'].setdefault(key, {})[d] = val
+    if per_degree_impairments:
+        # ROADMs of a variety with impairment profiles: some add / drop / express crossings name another profile of the
+        # right kind (ids 4, 5, 3) than the default first one; only degrees that auto-design leaves in place
+        profiled = {r.get('type_variety') for r in eq_json['Roadm'] if r.get('roadm-path-impairments')}
+        for i, r in enumerate(roadms):
+            if r.get('type_variety') not in profiled:
+                continue
+            outs = [c['to_node'] for c in connections if c['from_node'] == r['uid']
+                    and c['to_node'].startswith(('booster ', 'fused '))]
+            ins = [c['from_node'] for c in connections if c['to_node'] == r['uid']
+                   and c['from_node'].startswith(('preamp ', 'fused ', 'booster ', 'amp '))]
+            entries = []
+            for d in outs:
+                if draw(st.booleans()):
+                    entries.append({'from_degree': f'trx R{i}', 'to_degree': d, 'impairment_id': draw(st.sampled_from([1, 4]))})
+            for d in ins:
+                if draw(st.booleans()):
+                    entries.append({'from_degree': d, 'to_degree': f'trx R{i}', 'impairment_id': draw(st.sampled_from([2, 5]))})
+            if entries:
+                r['params']['per_degree_impairments'] = entries
     topo = {'elements': elements, 'connections': connections}
     truth = {'n': k, 'links': [list(l) for l in links]}
     return topo, truth
